@@ -19,7 +19,7 @@ class C09(Prop):
             "EVENT/COUNT requests (ids from 3 event ids / 2 subscription ids, re-used one after the other), up to 4 in "
             "flight, every child answers every request once (FIFO per child and id) with random verdict, prefix, text "
             "resp. count 0..4 and approximate flag, replies interleaved at random; some unsolicited replies, some REQ "
-            "traffic, 8% cut short; the last eighth of the histories may re-use an id that is still in flight (finding "
+            "traffic, 8% cut short; the last n/100 (8..40) histories may re-use an id that is still in flight (finding "
             "K1) and comes last so that failures of the guarded class are met first; non-trivial = an aggregated reply "
             "was produced from children that disagreed; distinct = distinct JSON of the inputs")
     trusted_base = COMMON_TRUSTED + [
